@@ -19,6 +19,7 @@ pub mod c20;
 pub mod c12;
 pub mod c13;
 pub mod c14;
+pub mod synckill;
 pub mod syncsys;
 pub mod syncworld;
 
@@ -58,6 +59,7 @@ pub fn replay_file(path: &std::path::Path) -> i32 {
         "c09-schedule" => verdict(v["property"].as_str().unwrap_or("C09"), path, c09::replay(case)),
         "c10-schedule" => verdict("C10", path, c10::replay(case)),
         "c08-sequence" => verdict("C08", path, c08::replay(case)),
+        "synckill" => verdict(v["property"].as_str().unwrap_or("C11"), path, synckill::replay(case)),
         "c11-scenario" => verdict("C11", path, c11::replay(case)),
         "c16-script" => verdict("C16", path, c16::replay(case)),
         "c17-schedule" => verdict("C17", path, c17::replay(case)),
